@@ -822,6 +822,12 @@ func TypeIs(t types.Type, pkgPath, name string) bool {
 	return n != nil && n.Obj().Name() == name && n.Obj().Pkg() != nil && n.Obj().Pkg().Path() == pkgPath
 }
 
+// TypePkgIs reports whether t is a named type (not a pointer to one) declared in package pkgPath.
+func TypePkgIs(t types.Type, pkgPath string) bool {
+	n, _ := t.(*types.Named)
+	return n != nil && n.Obj().Pkg() != nil && n.Obj().Pkg().Path() == pkgPath
+}
+
 // Describe renders an instruction for witnesses.
 func Describe(in ssa.Instruction) string {
 	s := in.String()
